@@ -150,7 +150,9 @@ def search(ctx):
                 bad = []
                 for p in changed:
                     real = os.path.realpath(p)
-                    m = C.match_redirect(real, cfg, Path(work))
+                    # a relative rule pattern means "relative to the directory the shell is in": after a leading literal
+                    # `cd sub` bash writes from <work>/sub
+                    m = C.match_redirect(real, cfg, Path(os.path.join(work, "sub")) if cd == "first-literal" else Path(work))
                     if m is None or m.decision != "allow":
                         bad.append(os.path.relpath(real, work))
                 out.append(("ran", x, cfg_text.replace(work, "<work>"), cd, [os.path.relpath(p, work) for p in changed], bad))
